@@ -12,7 +12,7 @@
 #include <sys/stat.h>
 #include <unistd.h>
 
-static long ncases(int tier) { return tier ? 20000 : 1200; }
+static long ncases(int tier) { return tier ? 20000 : 2000; }
 
 enum { K_PCA = 0, K_CPCA = 1, K_PLS = 2 };
 static const char *KN[] = { "PCA", "CPCA", "PLS" };
